@@ -12,7 +12,7 @@ RULE = ("Seeded histories on the real AtomicArena (hook H2 on): the arena is pre
         "the main thread after join); len() never decreases per observer, lies between adds completed-before and "
         "started-before (stamped histories) and equals completed adds after join; after drop(arena) every element's drop "
         "counter is exactly 1 and no drop ran on a never-written slot. The same program under Miri (many scheduler seeds, "
-        "Stacked and Tree Borrows, raised preemption rate) and, in thorough, ThreadSanitizer. Non-trivial: >=2 worker "
+        "Stacked and Tree Borrows, raised preemption rate) and, in thorough, ThreadSanitizer, AddressSanitizer and a build with the crate's own memory_consistency_assertions on. Non-trivial: >=2 worker "
         "threads found the same bucket pointer null (raced into slice_for_slot_slow); distinct = distinct hash of the "
         "merged (site,thread) hook-hit order.")
 
@@ -31,15 +31,18 @@ def run(ctx):
              "miri_reports": len(mrep.get("miri_reports", [])),
              "miri_interleavings": ic.interleaving_summary(mrep),
              "miri_bucket_races": (mrep.get("extra") or {}).get("same_bucket_null_seen_by_n_threads", {})}
-    trep = {}
+    more = 0
     if not ctx.quick():
-        trep = ic.run_tsan(ctx, "c06", 4000, threads=8, ops=40)
-        v += ic.violations_for("C06", trep)
-        tools["tsan"] = {"histories": trep.get("histories", 0), "report_blocks": len(trep.get("tsan_reports", [])),
-                         "bucket_races": (trep.get("extra") or {}).get("same_bucket_null_seen_by_n_threads", {})}
+        for flavour, n in (("tsan", 4000), ("asan", 6000), ("mca", 20000)):
+            srep = ic.run_sanitized(ctx, "c06", flavour, n, threads=8, ops=40)
+            v += ic.violations_for("C06", srep)
+            more += srep.get("histories", 0)
+            tools[flavour] = {"histories": srep.get("histories", 0), "report_blocks": len(srep.get("san_reports", [])),
+                              "crashes": len(srep.get("crashes", [])),
+                              "bucket_races": (srep.get("extra") or {}).get("same_bucket_null_seen_by_n_threads", {})}
     extra = rep.get("extra", {})
     cov = {
-        "evaluations": rep.get("histories", 0) + mrep.get("histories", 0) + trep.get("histories", 0),
+        "evaluations": rep.get("histories", 0) + mrep.get("histories", 0) + more,
         "distinct_nontrivial": len(rep.get("fp_nontrivial", ())),
         "rule": RULE,
         "samples": rep.get("samples", [])[:3],
